@@ -221,7 +221,9 @@ package goose
 
 //@ func (TranslationConfig).TranslatePackages$1
 //@   requires [worker i writes only its own result slots, which exist] 0 <= i && i < len(*files) && i < len(*errs)
+//@   requires [the two result arrays are different objects] ref(*files) != ref(*errs)
 //@   may_reject
+//@   modifies elems(*files, i, i+1), elems(*errs, i, i+1), fresh
 //@ func (TranslationConfig).TranslatePackages
 //@   may_reject
 //@   ensures [one file and one error slot per matched package] result.2 == nil ==> len(result.0) == len(result.1) && len(result.0) >= 1
@@ -297,3 +299,18 @@ package goose
 //@   ensures [packages are loaded from -dir with the goose build tag] result.Dir == modDir && len(result.BuildFlags) == 2 && result.BuildFlags[0] == "-tags" && result.BuildFlags[1] == "goose"
 //@   ensures [names, files, imports, types and syntax are loaded] result.Mode & (packages.NeedName | packages.NeedCompiledGoFiles | packages.NeedImports | packages.NeedTypes | packages.NeedSyntax | packages.NeedTypesInfo) == (packages.NeedName | packages.NeedCompiledGoFiles | packages.NeedImports | packages.NeedTypes | packages.NeedSyntax | packages.NeedTypesInfo)
 //@   noframe
+
+// ---- control-flow shape (C02): "always ends in a return / break / continue" ----------------------
+// A block may only be treated as always leaving through a control effect if its last statement is
+// a return, a break/continue, or an if statement WITH an else branch (an if without else can fall
+// through). ifStmt relies on this to decide where the remainder of a block goes.
+
+//@ props C02
+
+//@ func (Ctx).stmtsEndWithReturn
+//@   may_reject
+//@   ensures [an if without else can fall through: it never always returns] result && len(ss) > 0 && typeis(ss[len(ss)-1], *ast.IfStmt) ==> ss[len(ss)-1].(*ast.IfStmt).Else != nil
+//@   ensures [only a return, break/continue or two-armed if ends a block that always returns] result ==> len(ss) > 0 && (typeis(ss[len(ss)-1], *ast.ReturnStmt) || typeis(ss[len(ss)-1], *ast.BranchStmt) || typeis(ss[len(ss)-1], *ast.IfStmt))
+//@ func (Ctx).endsWithReturn
+//@   may_reject
+//@   ensures [nothing always returns] result ==> s != nil
